@@ -60,9 +60,10 @@ inline ref::Name gen_name(Chooser &c, const GenCfg &cfg, std::vector<ref::Name> 
     for (unsigned i = 0; i < np; i++) n.labels.push_back(gen_label(c, cfg, rdata_name));
     for (size_t i = base.labels.size() - keep; i < base.labels.size(); i++) n.labels.push_back(base.labels[i]);
   } else if (k == 6) { /* root */ }
-  else if (k == 7) { // boundary total length ~ 250..255
-    size_t total = 1; size_t want = 248 + c.pick(8);
-    while (total + 2 <= want) { size_t l = std::min<size_t>(63, want - total - 1); if (l == 0) break; Bytes b(l, 'a' + (char)c.pick(26)); n.labels.push_back(b); total += 1 + l; }
+  else if (k == 7) { // boundary total length ~ 250..255; for names in RDATA (no host-name charset) half of them made of octets that need a \DDD escape,
+    // so that the presentation form is up to four times longer than the wire form
+    size_t total = 1; size_t want = 248 + c.pick(8); bool binary = rdata_name && c.chance(1, 2);
+    while (total + 2 <= want) { size_t l = std::min<size_t>(63, want - total - 1); if (l == 0) break; Bytes b(l, (char)('a' + c.pick(26))); if (binary) for (auto &ch : b) if (c.chance(3, 4)) ch = (char)(1 + c.pick(31)); n.labels.push_back(b); total += 1 + l; }
   } else { unsigned nl = 1 + c.pick(5); for (unsigned i = 0; i < nl; i++) n.labels.push_back(gen_label(c, cfg, rdata_name)); }
   // keep within 255 octets
   size_t total = 1; for (auto &l : n.labels) total += 1 + l.size();
